@@ -78,7 +78,7 @@ pub trait MpmcApi: 'static {
 
 pub struct Borrowed<M, A>(std::marker::PhantomData<(M, A)>);
 impl<M: RawMutex + 'static, A: RingBuf<Item = Val> + 'static> MpmcApi for Borrowed<M, A> {
-    type Root = Box<GenericChannel<M, Val, A>>;
+    type Root = Owned<GenericChannel<M, Val, A>>;
     type Tx = &'static GenericChannel<M, Val, A>;
     type Rx = &'static GenericChannel<M, Val, A>;
     type Obs = &'static GenericChannel<M, Val, A>;
@@ -88,9 +88,8 @@ impl<M: RawMutex + 'static, A: RingBuf<Item = Val> + 'static> MpmcApi for Borrow
     const SHARED: bool = false;
     const GROWING: bool = false;
     fn create(cap: usize) -> (Self::Root, Self::Tx, Self::Rx, Self::Obs) {
-        let b = Box::new(GenericChannel::<M, Val, A>::with_capacity(cap));
-        // Safety: the world drops every future before the root box
-        let r: &'static GenericChannel<M, Val, A> = unsafe { &*(&*b as *const _) };
+        // the world drops every future before the root
+        let (b, r) = Owned::new(GenericChannel::<M, Val, A>::with_capacity(cap));
         (b, r, r, r)
     }
     fn clone_tx(t: &Self::Tx) -> Self::Tx {
@@ -1118,7 +1117,10 @@ impl<A: MpmcApi> World for MpmcWorld<A> {
                         self.txs[0] = None;
                         self.rxs[0] = None;
                     }
-                    let obs = self.obs.take();
+                    // borrowed flavours: `obs` is a plain reference into the root; it must not be
+                    // alive (not even captured) while the root is freed
+                    let obs = if A::SHARED { self.obs.take() } else { None };
+                    self.obs = None;
                     let root = self.root.take();
                     env.call("drop channel", || {
                         drop(obs);
